@@ -110,6 +110,20 @@ def run(chk: Check):
             chk.violation(f"driver-run-raises:{sc['wt']}:{sc['opts'].get('ad_mode')}",
                           f"driver.afqmc raised {type(ex).__name__}: {str(ex)[:300]} for scenario {sc}", {"scenario": sc})
             continue
+        if sc["opts"].get("save_walkers"):
+            # DriverSave: one snapshot per sampling block, taken after the driver's QR and before the global
+            # reconfiguration (so it must equal the population the reconfiguration received)
+            saved = files.get("saved_prop_data", [])
+            srg = [e for e in ev if e["ev"] == "SRGlobal"][-sc["nblocks"]:]
+            ok = len(saved) == sc["nblocks"]
+            for sp, e in zip(saved, srg):
+                f_saved = proxies._flat(sp["walkers"])
+                ok = ok and len(f_saved) == len(e["f0"]) and all(np.array_equal(a, b) for a, b in zip(f_saved, e["f0"])) \
+                    and np.array_equal(np.asarray(sp["weights"]), np.asarray(e["w0"]))
+            chk.case(("save_walkers", k))
+            if not ok:
+                chk.violation("driver:save_walkers", f"save_walkers: {len(saved)} snapshots for {sc['nblocks']} sampling blocks, or a snapshot "
+                              f"differs from the population handed to the global reconfiguration", {"scenario": sc})
         tr = proxies.to_trace(ev, nw, tid=k + 1)
         traces.append(tr)
         metas.append((sc, nw, dict(n_walkers=nw, neql=sc["eql"][0], nblocks=sc["nblocks"], steps=sc["block"][0],
